@@ -400,7 +400,18 @@ func (g *gen) hostileGrammar() *Hostile {
 	}
 	add(it)
 	for i, k := 0, g.r.Range(0, 8); i < k; i++ {
-		switch g.r.Pick(30, 25, 15, 15, 15, 12) {
+		switch g.r.Pick(30, 25, 15, 15, 15, 12, 8) {
+		case 6: // a stored block slightly larger than the declared maximum, complete
+			bmax := []int{0, 0, 0, 0, 64 << 10, 256 << 10, 1 << 20, 4 << 20}[(bd>>4)&7]
+			if bmax == 0 || bmax > 256<<10 {
+				bmax = 64 << 10
+			}
+			n := bmax + g.r.PickInt(1, 2, 100, 272, 273, 1000)
+			add(HItem{Kind: "word", Val: uint32(n) | 0x80000000})
+			add(HItem{Kind: "fill", Len: n, Seed: g.r.Uint64()})
+			if flg&0x10 != 0 {
+				add(HItem{Kind: "fill", Len: 4, Seed: g.r.Uint64()})
+			}
 		case 5: // a well-formed compressed block that decodes to a chosen length ("bomb")
 			target := g.r.PickInt(65535, 65536, 65537, 70000, 300000, 4<<20+1)
 			b := []byte{0x1f, 'a', 1, 0}
